@@ -70,6 +70,12 @@ class C11(PropCheck):
             if "v2_state_diff" in info:
                 acc["max_v2_state_diff_ok"] = max(acc.get("max_v2_state_diff_ok", 0.0),
                                                   info["v2_state_diff"] if info["v2_state_diff"] <= c11_run.TOL_STATE else 0.0)
+        if k == "hist":
+            h = acc.setdefault("histories", {"final_without_prep": 0, "compared_with_fresh": 0, "patterns": {}})
+            h["final_without_prep"] += info.get("final_prep") is False
+            h["compared_with_fresh"] += "hist_vs_fresh" in info
+            pat = ">".join(info.get("steps", []))
+            h["patterns"][pat] = h["patterns"].get(pat, 0) + 1
         c = acc.setdefault("checks", {})
         for ch in run["checks"]:
             c[ch["c"]] = c.get(ch["c"], 0) + 1
